@@ -55,14 +55,14 @@ func gShard(s int) history.ClusterShardID {
 var gSrcShard = history.ClusterShardID{ClusterID: gSourceCluster, ShardID: 1}
 
 type gItem struct {
-	kind        string // reg | unreg | snap
-	from, to    int
-	shard       int
-	stamp       int64
-	table       string // canonical content of a snapshot
-	data        []byte
-	deliveredN  int
-	claim       *gReg // for reg items
+	kind               string // reg | unreg | snap
+	from, to           int
+	shard              int
+	stamp              int64
+	table              string // canonical content of a snapshot
+	data               []byte
+	deliveredN         int
+	claim              *gReg // for reg items
 	sentAfterDeparture bool
 }
 
@@ -85,29 +85,29 @@ type gReg struct {
 	announced   bool
 	ended       bool
 	dsts        []int
-	evictedBy   *gReg // the claim whose announcement removed this registration's entry
+	evictedBy   *gReg              // the claim whose announcement removed this registration's entry
 	cancel      context.CancelFunc // viaStreams: the context of the cluster's stream
 	returned    chan struct{}      // viaStreams: closed when the stream handler returned
 	stream      *srvStream         // viaStreams: the cluster's side of the stream
 }
 
 type gWorld struct {
-	t        *testing.T
-	n        int
-	sms      []proxy.ShardManager
-	base     time.Time
-	net      []*gItem
-	all      []*gItem // every item ever emitted
-	departed []bool
-	leftAt   [][]bool // leftAt[m][n]: m processed NotifyLeave(n)
+	t          *testing.T
+	n          int
+	sms        []proxy.ShardManager
+	base       time.Time
+	net        []*gItem
+	all        []*gItem // every item ever emitted
+	departed   []bool
+	leftAt     [][]bool // leftAt[m][n]: m processed NotifyLeave(n)
 	staleMerge [][]bool // staleMerge[m][n]: m merged an in-flight snapshot of n after processing its leave
-	regs     []*gReg
-	mu       sync.Mutex
-	curAdd   *gReg
-	intra    map[[3]int]*srvStream // (node, peer, shard) -> fake intra-proxy server stream
-	viol     []map[string]any
-	ended    map[int]bool // shards for which a stream end removed an entry
-	routeN   int
+	regs       []*gReg
+	mu         sync.Mutex
+	curAdd     *gReg
+	intra      map[[3]int]*srvStream // (node, peer, shard) -> fake intra-proxy server stream
+	viol       []map[string]any
+	ended      map[int]bool // shards for which a stream end removed an entry
+	routeN     int
 	// viaStreams: registrations are made by REAL proxyStreamSender streams opened on a real admin service handler
 	viaStreams bool
 	srv        []adminservice.AdminServiceServer
@@ -269,7 +269,9 @@ func (w *gWorld) tableOf(m map[string]time.Time) string {
 	return "[" + strings.Join(parts, ",") + "]"
 }
 
-func (w *gWorld) localTable(i int) map[string]time.Time { return proxy.VerifLocalShardCreated(w.sms[i]) }
+func (w *gWorld) localTable(i int) map[string]time.Time {
+	return proxy.VerifLocalShardCreated(w.sms[i])
+}
 
 func (w *gWorld) observe() string {
 	var L, R, P, S, F []string
@@ -809,17 +811,17 @@ func gPatterns(maxNodes, maxShards, length int) [][]gClaimSpec {
 // step the enabled events are the next `add`, the `announce` of any parked registration and the
 // delivery of any in-flight register announcement not delivered yet.
 type gExplorer struct {
-	n       int
-	claims  []gClaimSpec
-	ticks   bool
-	dup     bool
-	path    []int
-	branch  []int
-	random  func(int) int // non-nil: random walk instead of DFS
-	queue   []string
-	added   int
-	phase   int
-	shards  map[int]bool
+	n      int
+	claims []gClaimSpec
+	ticks  bool
+	dup    bool
+	path   []int
+	branch []int
+	random func(int) int // non-nil: random walk instead of DFS
+	queue  []string
+	added  int
+	phase  int
+	shards map[int]bool
 }
 
 func (x *gExplorer) next(w *gWorld, _ int) string {
